@@ -162,7 +162,7 @@ PROPS = {
         v=['C20_ids', 'C20_rle', 'C06_sparse', 'C20_frame'],
         k=[('tensor_chain', ['c20_frame_flags_roundtrip', 'c20_method_from_flags_total', 'c20_length_prefix_roundtrip']),
            ('tensor_store', ['c07_header_roundtrip_fields', 'c07_header_roundtrip_bytes', 'c07_header_validate_exact'])],
-        b=['c20_ids', 'c20_frames'],
+        b=['c20_ids', 'c20_frames', 'c20_garbage'],
         pairs={'C20_ids': ['bounded:c20_ids'], 'C20_frame': ['bounded:c20_frames']},
         level='other',
         technique='Verus: extracted delta/varint/compress_ids/rle/sparse codecs proved against spec functions + round-trip theorems; Kani: frame flags, length prefix, snapshot header; bounded native pair for replay',
